@@ -12,8 +12,11 @@ Rec == Prog.log
 Z == <<>>
 
 Init == /\ tid \in 1..Len(Programs) /\ TLCSet(tid, 0)
-        /\ KInit
-        /\ script = [i \in 1..1 |-> <<>>]
+        /\ now = 0 /\ agenda = {} /\ seq = 1 /\ evs = <<>> /\ procs = <<>>
+        /\ cur = NoCur /\ run = NoRun
+        /\ top = [mode |-> "top", uk |-> "none", ue |-> 0, n |-> 0]
+        /\ log = <<>> /\ script = <<<<>>>> /\ res = <<>>
+        /\ ftab = IF "ftab" \in DOMAIN Programs[tid] THEN Programs[tid].ftab ELSE IntTimes
 
 ScriptOf(p) == IF p + 1 <= Len(Prog.scripts) THEN Prog.scripts[p + 1] ELSE <<>>
 Eff(o) == IF Valid(o) THEN o ELSE Op("skip", 0, 0, 0, Z)
@@ -25,10 +28,11 @@ TopStep == /\ TopCanAct /\ top.n < Len(ScriptOf(0))
 \* every new log entry must be the recorded one
 Matches == /\ Len(log') <= Len(Rec)
            /\ \A i \in (Len(log) + 1)..Len(log') : log'[i] = Rec[i]
-Next == (Kernel \/ ProcStep \/ TopStep) /\ Matches /\ UNCHANGED tid
+Next == (Kernel \/ ((ProcStep \/ TopStep) /\ UNCHANGED ftab)) /\ Matches /\ UNCHANGED tid
 Spec == Init /\ [][Next]_vars
 
-Finished == TopCanAct /\ run.p = 0 /\ top.n = Len(ScriptOf(0)) /\ Len(log) = Len(Rec)
+Finished == /\ TopCanAct /\ run.p = 0 /\ top.n = Len(ScriptOf(0)) /\ Len(log) = Len(Rec)
+            /\ ("final" \in DOMAIN Prog => FinalState = Prog.final)
 \* progress register: number of matched log entries, +1 when the whole plan has completed with the full log
 Mark == LET v == Len(log) + (IF Finished THEN 1 ELSE 0) IN TLCSet(tid, IF v > TLCGet(tid) THEN v ELSE TLCGet(tid))
 Post == /\ \A i \in 1..Len(Programs) :
